@@ -116,9 +116,11 @@ def _run_check(prop, tier, seed, replay):
         rep.coverage["theorems"] = names
         mod.run(ctx)
         if not ctx["proof_ok"] and not any(v["found_input"] for v in rep.violations):
+            broken = C.failing_lemmas(ctx.get("build_log"))
             rep.violation(dict(kind="proof-obligation", files=ctx.get("build_failed")),
-                          "proof obligations of %s no longer check: %s" % (prop, ctx.get("build_failed")),
-                          dict(obligation_files=ctx.get("build_failed"), log=ctx.get("build_log"),
+                          "proof obligations of %s no longer check: %s%s" % (prop, ctx.get("build_failed"),
+                                                                            (" — first broken statement: " + broken[0]) if broken else ""),
+                          dict(obligation_files=ctx.get("build_failed"), broken_statements=broken, log=ctx.get("build_log"),
                                changed_overload_resolutions=ctx.get("failing_resolutions")),
                           found_input=False)
     except Exception as x:
